@@ -188,4 +188,556 @@ theorem onNotification_acc {strict : Bool} {s : State} {g : G} (h : Rel true s g
     · exact h.cid k hc
     · exact h.ids i hi
 
+/-! ## writes -/
+
+def notNotif : Kind → Bool
+  | .notification _ _ => false
+  | _ => true
+
+theorem sendOn_none {k : Kind} {s : State} (hc : s.conn = none) : sendOn k s = ((s, []), true) := by
+  simp [sendOn, hc]
+
+theorem sendOn_ok {k : Kind} {s : State} {c : Conn} (hc : s.conn = some c) (hr : c.rst = false) :
+    sendOn k s = (({ s with conn := some (markSent k c) }, [.send c.id k s.fsm]), true) := by
+  simp [sendOn, hc, hr]
+
+theorem sendOn_fail {k : Kind} {s : State} {c : Conn} (hc : s.conn = some c) (hr : c.rst = true) :
+    sendOn k s = (({ s with conn := none }, [.send c.id k s.fsm, .close c.id]), false) := by
+  simp [sendOn, hc, hr]
+
+theorem markSent_id (k : Kind) (c : Conn) : (markSent k c).id = c.id := by cases k <;> rfl
+
+/-- the checker state after a write of kind `k` on connection `c`. -/
+def afterSend (k : Kind) (c : Nat) (g : G) : G :=
+  match k with
+  | .notification _ _ => { g with dead := c :: g.dead }
+  | _ => g
+
+theorem chk_send {strict : Bool} {g : G} {c : Nat} {k : Kind} {st : Fsm} (h1 : st = g.fsm) (h2 : c ∉ g.dead)
+    (h3 : strict = true → isData k = true → st = .established) :
+    chk strict g (.send c k st) = some (afterSend k c g) := by
+  simp only [chk, afterSend]
+  rw [if_pos ⟨h1, h2, h3⟩]
+
+theorem afterSend_fsm (k : Kind) (c : Nat) (g : G) : (afterSend k c g).fsm = g.fsm := by cases k <;> rfl
+theorem afterSend_up (k : Kind) (c : Nat) (g : G) : (afterSend k c g).up = g.up := by cases k <;> rfl
+theorem afterSend_dead (k : Kind) (c : Nat) (g : G) : ∀ i ∈ (afterSend k c g).dead, i = c ∨ i ∈ g.dead := by
+  intro i hi
+  cases k <;> simp [afterSend] at hi <;> first | exact Or.inr hi | (rcases hi with rfl | hi; exact Or.inl rfl; exact Or.inr hi)
+theorem afterSend_plain {k : Kind} (hk : notNotif k = true) (c : Nat) (g : G) : afterSend k c g = g := by
+  cases k <;> simp [notNotif] at hk <;> rfl
+
+theorem sendOn_acc {strict : Bool} {s : State} {g : G} (k : Kind) (h : Rel true s g)
+    (hd : strict = true → isData k = true → s.fsm = .established) :
+    Acc strict g (sendOn k s).1 (fun s' g' => Rel (notNotif k) s' g' ∧ s'.fsm = s.fsm ∧ s'.isUp = s.isUp ∧
+      s'.pc = s.pc ∧ s'.nextId = s.nextId ∧ ((sendOn k s).2 = true → s'.conn.map Conn.id = s.conn.map Conn.id) ∧
+      ((sendOn k s).2 = false → s'.conn = none)) := by
+  cases hc : s.conn with
+  | none =>
+    rw [sendOn_none hc]
+    exact ⟨g, rfl, ⟨h.fsm, h.up, h.ids, by simp [hc], by simp [hc]⟩, rfl, rfl, rfl, rfl, fun _ => by simp [hc], fun _ => hc⟩
+  | some c =>
+    have hlive : c.id ∉ g.dead := h.live rfl c hc
+    have hcid := h.cid c hc
+    have hids : ∀ i ∈ (afterSend k c.id g).dead, i < s.nextId := by
+      intro i hi
+      rcases afterSend_dead k c.id g i hi with rfl | hi
+      · exact hcid
+      · exact h.ids i hi
+    cases hr : c.rst
+    · rw [sendOn_ok hc hr]
+      refine ⟨afterSend k c.id g, ?_, ⟨?_, ?_, hids, ?_, ?_⟩, rfl, rfl, rfl, rfl, by simp [hc, markSent_id], by simp⟩
+      · simp [chkAll, chk_send h.fsm.symm hlive hd]
+      · rw [afterSend_fsm]; exact h.fsm
+      · rw [afterSend_up]; exact h.up
+      · intro k' hk'; simp at hk'; subst hk'; rw [markSent_id]; exact hcid
+      · intro hk k' hk'; simp at hk'; subst hk'; rw [markSent_id, afterSend_plain hk]; exact hlive
+    · rw [sendOn_fail hc hr]
+      refine ⟨afterSend k c.id g, ?_, ⟨?_, ?_, hids, by simp, by simp⟩, rfl, rfl, rfl, rfl, by simp, by simp⟩
+      · show chkAll strict g [Out.send c.id k s.fsm, Out.close c.id] = some (afterSend k c.id g)
+        simp only [chkAll, chk_send h.fsm.symm hlive hd, Option.bind_some]
+        rfl
+      · rw [afterSend_fsm]; exact h.fsm
+      · rw [afterSend_up]; exact h.up
+
+theorem Rel.full_of_plain {k : Kind} {s : State} {g : G} (hk : notNotif k = true) (h : Rel (notNotif k) s g) :
+    Rel true s g := by rw [hk] at h; exact h
+
+theorem onNotify_acc {strict : Bool} {s : State} {g : G} (code sub : Nat) (h : Rel true s g) :
+    Acc strict g (onNotify code sub s) (fun s' g' => Rel true s' g') := by
+  unfold onNotify
+  have a1 := sendOn_acc (strict := strict) (.notification code sub) h (by simp [isData])
+  have a2 := Acc.seq a1 (fun g1 p1 => resetP_acc p1.1)
+  have a3 := Acc.seq a2 (fun g2 p2 => stopIfExhausted_acc p2.1)
+  exact Acc.seq a3 (fun g3 p3 => finish_acc p3.1)
+
+/-! ## establishment -/
+
+theorem afterConnect_acc {strict : Bool} {s : State} {g : G} (h : Rel true s g) (hf : s.fsm = .idle) :
+    Acc strict g (afterConnect s) (fun s' g' => Rel true s' g') := by
+  have h1 : Acc strict g (fsmTo .connect s ⊳ fun t => (sendOn .open t).1)
+      (fun s' g' => Rel true s' g' ∧ s'.fsm = .connect) := by
+    refine Acc.seq (fsmTo_acc .connect h (by rw [hf]; decide)) ?_
+    intro g1 ⟨r1, e1⟩
+    refine Acc.mono (sendOn_acc .open r1 (by simp [isData])) ?_
+    intro s' g' ⟨r, f, _⟩
+    exact ⟨r.full_of_plain rfl, by rw [f, e1]⟩
+  unfold afterConnect
+  simp only []
+  split
+  · have a2 := Acc.seq h1 (fun g1 p1 => fsmTo_acc (strict := strict) .opensent p1.1 (by rw [p1.2]; decide))
+    exact Acc.seq a2 (fun g2 p2 => Acc.pure (p2.1.frame rfl rfl rfl rfl))
+  · exact Acc.seq h1 (fun g1 p1 => onNetErr_acc p1.1)
+
+theorem establish2_acc {strict : Bool} {s : State} {g : G} (h : Rel true s g) :
+    Acc strict g (establish2 s) (fun s' g' => Rel true s' g') := by
+  unfold establish2
+  refine Acc.seq (fsmTo_acc .idle h (to_idle_rfc _)) ?_
+  intro g1 ⟨r1, e1⟩
+  split
+  · exact Acc.pure (r1.frame rfl rfl rfl (by simp [*]))
+  · exact afterConnect_acc r1 (by rw [e1])
+
+theorem beginRun_acc {strict : Bool} {s : State} {g : G} (h : Rel true s g) (hf : s.fsm = .idle) :
+    Acc strict g (beginRun s) (fun s' g' => Rel true s' g') := by
+  unfold beginRun
+  refine Acc.seq (fsmTo_acc .active h (by rw [hf]; decide)) ?_
+  intro g1 ⟨r1, e1⟩
+  split
+  · exact Acc.pure (r1.frame rfl rfl rfl rfl)
+  · exact establish2_acc r1
+
+theorem enterMain_acc {strict : Bool} {s : State} {g : G} (c : Nat) (h : Rel true s g) (hu : s.isUp = false) :
+    Acc strict g (enterMain c s) (fun s' g' => Rel true s' g') := by
+  unfold enterMain
+  split
+  · exact onNotify_acc 6 3 h
+  · refine ⟨{ g with up := true }, ?_, h.fsm, rfl, h.ids, h.cid, h.live⟩
+    have : g.up = false := by rw [h.up, hu]
+    simp [chkAll, chk, this]
+
+theorem sendKa_acc {strict : Bool} {s : State} {g : G} (c : Nat) (h : Rel true s g) :
+    Acc strict g (sendKa c s) (fun s' g' => Rel true s' g') := by
+  unfold sendKa
+  simp only []
+  have h1 := sendOn_acc (strict := strict) .keepalive h (by simp [isData])
+  split
+  · refine Acc.seq h1 ?_
+    intro g1 ⟨r1, _⟩
+    exact Acc.pure ((r1.full_of_plain rfl).frame rfl rfl rfl rfl)
+  · exact Acc.seq h1 (fun g1 p1 => onNetErr_acc p1.1)
+
+/-! ## the main loop -/
+
+theorem andSend_acc {strict : Bool} {g : G} {w : W} {f : State → W} {P : State → G → Prop}
+    (h1 : Acc strict g w.1 P) (h2 : ∀ g1, P w.1.1 g1 → Acc strict g1 (f w.1.1).1 P) :
+    Acc strict g (w.andSend f).1 P := by
+  unfold W.andSend
+  split
+  · exact Acc.seq (f := fun t => (f t).1) h1 h2
+  · exact h1
+
+theorem sendIf_acc {strict : Bool} {s : State} {g : G} (c : State → Bool) (k : Kind) (upd : State → State)
+    (hk : notNotif k = true) (h : Rel true s g)
+    (hupd : ∀ t, (upd t).fsm = t.fsm ∧ (upd t).isUp = t.isUp ∧ (upd t).nextId = t.nextId ∧ (upd t).conn = t.conn)
+    (hd : strict = true → isData k = true → s.fsm = .established) :
+    Acc strict g (sendIf c k upd s).1 (fun s' g' => Rel true s' g' ∧ s'.fsm = s.fsm) := by
+  unfold sendIf
+  split
+  · obtain ⟨u1, u2, u3, u4⟩ := hupd s
+    refine Acc.mono (sendOn_acc k (h.frame u1 u2 u3 (by rw [u4])) (by rw [u1]; exact hd)) ?_
+    intro s' g' ⟨r, f, _⟩
+    exact ⟨r.full_of_plain hk, by rw [f, u1]⟩
+  · exact Acc.pure ⟨h, rfl⟩
+
+theorem mainSends_acc {strict : Bool} {s : State} {g : G} (h : Rel true s g)
+    (hd : strict = true → s.fsm = .established) :
+    Acc strict g (mainSends s).1 (fun s' g' => Rel true s' g' ∧ s'.fsm = s.fsm) := by
+  unfold mainSends
+  have a1 : Acc strict g (sendIf (fun s => decide (s.refreshQ > 0)) .refresh (fun s => { s with refreshQ := s.refreshQ - 1 }) s).1
+      (fun s' g' => Rel true s' g' ∧ s'.fsm = s.fsm) :=
+    sendIf_acc _ .refresh _ rfl h (fun t => ⟨rfl, rfl, rfl, rfl⟩) (fun hs _ => hd hs)
+  have a2 := andSend_acc (f := sendIf (fun s => s.routesPending) .update (fun s => { s with routesPending := false })) a1 (by
+    intro g1 ⟨r1, f1⟩
+    refine Acc.mono (sendIf_acc _ .update _ rfl r1 (fun t => ⟨rfl, rfl, rfl, rfl⟩) (fun hs _ => by rw [f1]; exact hd hs)) ?_
+    intro s' g' ⟨r, f⟩; exact ⟨r, by rw [f, f1]⟩)
+  exact andSend_acc a2 (by
+    intro g1 ⟨r1, f1⟩
+    refine Acc.mono (sendIf_acc _ .eor _ rfl r1 (fun t => ⟨rfl, rfl, rfl, rfl⟩) (fun hs _ => by rw [f1]; exact hd hs)) ?_
+    intro s' g' ⟨r, f⟩; exact ⟨r, by rw [f, f1]⟩)
+
+theorem mainExit_acc {strict : Bool} {s : State} {g : G} (h : Rel true s g) :
+    Acc strict g (mainExit s) (fun s' g' => Rel true s' g') := by
+  unfold mainExit
+  split
+  · exact Acc.pure h
+  · split
+    · exact Acc.seq (closeP_acc h) (fun g1 p1 => onNetErr_acc p1.1)
+    · exact onNotify_acc _ _ h
+
+theorem mainTail_acc {strict : Bool} {s : State} {g : G} (h : Rel true s g)
+    (hd : strict = true → s.fsm = .established) :
+    Acc strict g (mainTail s) (fun s' g' => Rel true s' g') := by
+  unfold mainTail
+  split
+  · exact Acc.seq (mainSends_acc h hd) (fun g1 p1 => mainExit_acc p1.1)
+  · exact Acc.seq (mainSends_acc h hd) (fun g1 p1 => onNetErr_acc p1.1)
+
+theorem mainIter_acc {strict : Bool} {s : State} {g : G} (m : Option Msg) (h : Rel true s g)
+    (hd : strict = true → s.fsm = .established) :
+    Acc strict g (mainIter m s) (fun s' g' => Rel true s' g') := by
+  have dflt : Acc strict g (if s.cfg.hold0 = true ∧ m = some .keepalive ∧ s.kaSeen = true then onNotify 2 6 s
+      else mainTail (mainPre m s)) (fun s' g' => Rel true s' g') := by
+    split
+    · exact onNotify_acc _ _ h
+    · exact mainTail_acc (h.frame rfl rfl rfl rfl) hd
+  unfold mainIter
+  split
+  · exact onNotify_acc _ _ h
+  · exact onNotify_acc _ _ h
+  · exact onNotification_acc h
+  · exact dflt
+
+/-- the stale main loop writes a ROUTE-REFRESH outside ESTABLISHED (finding F30): only the
+    non-strict checker accepts it. -/
+theorem staleIter_acc {s : State} {g : G} (h : Rel true s g) :
+    Acc false g (staleIter s) (fun s' g' => Rel true s' g') := by
+  unfold staleIter
+  simp only []
+  have hw : Acc false g
+      ((sendIf (fun s => decide (s.refreshQ > 0)) .refresh (fun s => { s with refreshQ := s.refreshQ - 1 }) s)
+        |>.andSend (fun s => (({ s with routesPending := false }, []), true))
+        |>.andSend (sendIf (fun s => s.eorPending) .keepalive (fun s => { s with eorPending := false }))).1
+      (fun s' g' => Rel true s' g' ∧ s'.fsm = s.fsm) := by
+    have a1 : Acc false g (sendIf (fun s => decide (s.refreshQ > 0)) .refresh (fun s => { s with refreshQ := s.refreshQ - 1 }) s).1
+        (fun s' g' => Rel true s' g' ∧ s'.fsm = s.fsm) :=
+      sendIf_acc _ .refresh _ rfl h (fun t => ⟨rfl, rfl, rfl, rfl⟩) (by simp)
+    have a2 := andSend_acc (f := fun s => (({ s with routesPending := false }, []), true)) a1 (by
+      intro g1 ⟨r1, f1⟩
+      exact Acc.pure ⟨r1.frame rfl rfl rfl rfl, f1⟩)
+    exact andSend_acc a2 (by
+      intro g1 ⟨r1, f1⟩
+      refine Acc.mono (sendIf_acc _ .keepalive _ rfl r1 (fun t => ⟨rfl, rfl, rfl, rfl⟩) (by simp)) ?_
+      intro s' g' ⟨r, f⟩; exact ⟨r, by rw [f, f1]⟩)
+  split
+  · refine Acc.seq hw ?_
+    intro g1 ⟨r1, _⟩
+    split
+    · exact Acc.pure r1
+    · split
+      · exact onOther_acc r1
+      · exact onNotify_acc _ _ r1
+  · exact Acc.seq hw (fun g1 p1 => onNetErr_acc p1.1)
+
+/-! ## delivery, the events, whole runs -/
+
+theorem markConn_frame {full : Bool} {s : State} {g : G} (f : Conn → Conn) (hf : ∀ k, (f k).id = k.id)
+    (h : Rel full s g) : Rel full (markConn f s) g := by
+  unfold markConn
+  cases hc : s.conn with
+  | none => exact h
+  | some k => exact h.frame rfl rfl rfl (by simp [hc, hf])
+
+theorem markConn_fsm (f : Conn → Conn) (s : State) : (markConn f s).fsm = s.fsm := by
+  unfold markConn; cases s.conn <;> rfl
+
+theorem markConn_isUp (f : Conn → Conn) (s : State) : (markConn f s).isUp = s.isUp := by
+  unfold markConn; cases s.conn <;> rfl
+
+theorem deliver_acc {strict : Bool} {s : State} {g : G} (m : Msg) (h : Rel true s g) (hinv : Inv s)
+    (c : Nat) (k : Conn) (haw : awaited s = some c) (hc : s.conn = some k) (hk : k.id = c) :
+    Acc strict g (deliver m s) (fun s' g' => Rel true s' g') := by
+  cases hp : s.pc with
+  | awaitOpen c' =>
+    have hcc : c' = c := by simpa [awaited, hp] using haw
+    subst hcc
+    have hf := (hinv.awaitOpen _ k hp hc hk).1
+    unfold deliver; rw [hp]; simp only []
+    cases m with
+    | openOk low =>
+      simp only []
+      refine Acc.seq (fsmTo_acc .openconfirm (markConn_frame _ (fun _ => rfl) h) (by rw [markConn_fsm, hf]; decide)) ?_
+      intro g1 ⟨r1, _⟩
+      exact sendKa_acc _ r1
+    | bad f => exact onNotify_acc _ _ h
+    | operational => exact onNotify_acc _ _ h
+    | notification => exact onNotification_acc h
+    | openSem e => exact onNotify_acc _ _ h
+    | keepalive => exact onNotify_acc _ _ h
+    | update => exact onNotify_acc _ _ h
+    | refresh => exact onNotify_acc _ _ h
+  | awaitKa c' =>
+    have hcc : c' = c := by simpa [awaited, hp] using haw
+    subst hcc
+    have hf := (hinv.awaitKa _ k hp hc hk).1
+    have hu : s.isUp = false := hinv.isUp_false (by rw [hp]; simp) (by rw [hf]; simp)
+    unfold deliver; rw [hp]; simp only []
+    cases m with
+    | keepalive =>
+      simp only []
+      refine Acc.seq (fsmTo_acc .established (markConn_frame _ (fun _ => rfl) h) (by rw [markConn_fsm, hf]; decide)) ?_
+      intro g1 ⟨r1, e1⟩
+      exact enterMain_acc _ r1 (by rw [e1]; simp [markConn_isUp, hu])
+    | bad f => exact onNotify_acc _ _ h
+    | operational => exact onNotify_acc _ _ h
+    | notification => exact onNotification_acc h
+    | openSem e => exact onNotify_acc _ _ h
+    | openOk l => exact onNotify_acc _ _ h
+    | update => exact onNotify_acc _ _ h
+    | refresh => exact onNotify_acc _ _ h
+  | mainLoop c' =>
+    have hcc : c' = c := by simpa [awaited, hp] using haw
+    subst hcc
+    have hf := (hinv.main _ k hp hc hk).1
+    unfold deliver; rw [hp]
+    exact mainIter_acc _ h (fun _ => hf)
+  | backoff => simp [awaited, hp] at haw
+  | done => simp [awaited, hp] at haw
+  | passiveWait => simp [awaited, hp] at haw
+  | connecting => simp [awaited, hp] at haw
+
+theorem readErr_acc {strict : Bool} {s : State} {g : G} (h : Rel true s g) :
+    Acc strict g (readErr s) (fun s' g' => Rel true s' g') := by
+  unfold readErr
+  exact Acc.seq (closeConn_acc h) (fun g1 p1 => onNetErr_acc p1.1)
+
+theorem advance_acc {strict : Bool} : ∀ (n : Nat) (s : State) (g : G), Rel true s g → Inv s →
+    Acc strict g (advance n s) (fun s' g' => Rel true s' g')
+  | 0, s, g, h, _ => Acc.pure h
+  | n + 1, s, g, h, hinv => by
+    unfold advance
+    cases haw : awaited s with
+    | none => exact Acc.pure h
+    | some c =>
+      cases hc : s.conn with
+      | none => exact Acc.pure h
+      | some k =>
+        simp only []
+        by_cases hk : k.id = c
+        · rw [if_pos hk]
+          cases hi : k.inbox with
+          | nil =>
+            simp only []
+            split
+            · exact readErr_acc h
+            · exact Acc.pure h
+          | cons m rest =>
+            simp only []
+            have hinv' : Inv { s with conn := some { k with inbox := rest } } :=
+              hinv.congr rfl rfl (by simp [hc, Conn.hist]) rfl rfl
+            have h' : Rel true { s with conn := some { k with inbox := rest } } g :=
+              h.frame rfl rfl rfl (by simp [hc])
+            refine Acc.seq (deliver_acc m h' hinv' c { k with inbox := rest } (by simpa [awaited] using haw) rfl hk) ?_
+            intro g1 r1
+            exact advance_acc n _ g1 r1 (deliver_inv m _ hinv' c { k with inbox := rest } (by simpa [awaited] using haw) rfl hk)
+        · rw [if_neg hk]; exact Acc.pure h
+
+/-- the main loop reads a connection that is no longer `peer.proto`, and `peer.proto` is another
+    one (`_stop` then `handle_connection`): the F30 situation in ESTABLISHED. -/
+def staleAdopted (s : State) : Bool :=
+  match s.pc, s.conn with
+  | .mainLoop c, some k => k.id != c
+  | _, _ => false
+
+def StaleAdopted (s : State) : Prop := staleAdopted s = true
+
+theorem staleAdopted_intro {s : State} {c : Nat} {k : Conn} (hp : s.pc = .mainLoop c) (hc : s.conn = some k)
+    (hk : k.id ≠ c) : StaleAdopted s := by
+  simp [StaleAdopted, staleAdopted, hp, hc, hk]
+
+theorem Rel.adopt {s : State} {g : G} (h : Rel true s g) (hc : s.conn = none) :
+    Rel true { s with conn := some { id := s.nextId }, nextId := s.nextId + 1 } g := by
+  refine ⟨h.fsm, h.up, fun i hi => Nat.lt_succ_of_lt (h.ids i hi), ?_, ?_⟩
+  · intro k hk; simp at hk; subst hk; simp
+  · intro _ k hk; simp at hk; subst hk
+    intro hd; exact Nat.lt_irrefl _ (h.ids _ hd)
+
+theorem passiveCont_acc {strict : Bool} {t : State} {g : G} (h : Rel true t g) :
+    Acc strict g (if t.pc = .passiveWait then establish2 t else (t, [])) (fun s' g' => Rel true s' g') := by
+  split
+  · exact establish2_acc h
+  · exact Acc.pure h
+
+theorem adopt_acc {strict : Bool} {s : State} {g : G} (h : Rel true s g) :
+    Acc strict g (adopt s) (fun s' g' => Rel true s' g') := by
+  unfold adopt
+  have a1 : Acc strict g (if s.conn.isSome then closeP s else (s, []))
+      (fun s' g' => Rel true s' g' ∧ s'.conn = none) := by
+    cases hc : s.conn with
+    | none => simpa using Acc.pure (strict := strict) ⟨h, hc⟩
+    | some k =>
+      simp only [Option.isSome_some, if_true]
+      exact Acc.mono (closeP_acc h) (fun s' g' ⟨r, c, _⟩ => ⟨r, c⟩)
+  have a2 := Acc.seq (f := fun (t : State) => (({ t with conn := some { id := t.nextId }, nextId := t.nextId + 1 }, []) : R))
+    a1 (fun g1 p1 => Acc.pure (p1.1.adopt p1.2))
+  exact Acc.seq a2 (fun g2 r2 => passiveCont_acc r2)
+
+theorem handleConnection_acc {strict : Bool} {s : State} {g : G} (h : Rel true s g) :
+    Acc strict g (handleConnection s) (fun s' g' => Rel true s' g') := by
+  unfold handleConnection
+  split
+  · refine ⟨g, by simp [chkAll, chk], h.fsm, h.up, fun i hi => Nat.lt_succ_of_lt (h.ids i hi), ?_, h.live⟩
+    intro k hk; exact Nat.lt_succ_of_lt (h.cid k hk)
+  · exact adopt_acc h
+
+theorem react_acc {strict : Bool} {s : State} {g : G} (e : Event) (h : Rel true s g) (hinv : Inv s)
+    (hns : strict = true → ¬StaleAdopted s) :
+    Acc strict g (react s e) (fun s' g' => Rel true s' g') := by
+  have stale : ∀ c k, s.pc = .mainLoop c → s.conn = some k → k.id ≠ c →
+      Acc strict g (staleIter s) (fun s' g' => Rel true s' g') := by
+    intro c k hp hc hk
+    cases strict with
+    | false => exact staleIter_acc h
+    | true => exact (hns rfl (staleAdopted_intro hp hc hk)).elim
+  cases e with
+  | start =>
+    simp only [react]
+    split
+    · rename_i hp
+      split
+      · exact beginRun_acc h (hinv.backoffIdle hp)
+      · exact Acc.pure (h.frame rfl rfl rfl rfl)
+    · exact Acc.pure h
+  | connectOk =>
+    simp only [react]
+    split
+    · rename_i hp
+      have hf := hinv.connectingIdle hp
+      refine Acc.seq (P := fun s' g' => Rel true s' g' ∧ s'.fsm = .idle) ?_ (fun g1 p1 => afterConnect_acc p1.1 p1.2)
+      cases hc : s.conn with
+      | none =>
+        refine ⟨g, rfl, ⟨h.fsm, h.up, fun i hi => Nat.lt_succ_of_lt (h.ids i hi), ?_, ?_⟩, hf⟩
+        · intro k hk; simp at hk; subst hk; simp
+        · intro _ k hk; simp at hk; subst hk
+          intro hd; exact Nat.lt_irrefl _ (h.ids _ hd)
+      | some old =>
+        refine ⟨g, by simp [chkAll, chk], ⟨h.fsm, h.up, fun i hi => Nat.lt_succ_of_lt (h.ids i hi), ?_, ?_⟩, hf⟩
+        · intro k hk; simp at hk; subst hk; simp
+        · intro _ k hk; simp at hk; subst hk
+          intro hd; exact Nat.lt_irrefl _ (h.ids _ hd)
+    · exact Acc.pure h
+  | connectFail =>
+    simp only [react]
+    split
+    · refine Acc.seq (P := fun s' g' => Rel true s' g') ?_ (fun g1 p1 => onOther_acc p1)
+      split
+      · exact Acc.mono (closeP_acc h) (fun s' g' p => p.1)
+      · exact Acc.pure h
+    · exact Acc.pure h
+  | incoming => exact handleConnection_acc h
+  | recv c m =>
+    simp only [react]
+    cases hc : s.conn with
+    | none => exact Acc.pure h
+    | some k =>
+      simp only []
+      split
+      · exact Acc.pure (h.frame rfl rfl rfl (by simp [hc]))
+      · exact Acc.pure h
+  | eof c =>
+    simp only [react]
+    cases hc : s.conn with
+    | none => exact Acc.pure h
+    | some k =>
+      simp only []
+      split
+      · exact Acc.pure (h.frame rfl rfl rfl (by simp [hc]))
+      · exact Acc.pure h
+  | sockError c =>
+    simp only [react]
+    cases hc : s.conn with
+    | none => exact Acc.pure h
+    | some k =>
+      simp only []
+      split
+      · exact Acc.pure (h.frame rfl rfl rfl (by simp [hc]))
+      · exact Acc.pure h
+  | openwaitExpired =>
+    simp only [react]
+    split
+    · exact onNotify_acc _ _ h
+    · exact Acc.pure h
+  | holdExpired =>
+    simp only [react]
+    split
+    · rename_i c hp
+      split
+      · exact Acc.pure h
+      · refine Acc.seq (P := fun s' g' => Rel true s' g') ?_ ?_
+        · cases hc : s.conn with
+          | none => exact Acc.pure h
+          | some k =>
+            simp only []
+            split
+            · rename_i hk
+              exact mainIter_acc _ h (fun _ => (hinv.main c k hp hc hk).1)
+            · rename_i hk
+              exact stale c k hp hc hk
+        · intro g1 r1
+          split
+          · exact onNotify_acc _ _ r1
+          · exact Acc.pure r1
+    · exact Acc.pure h
+  | tick =>
+    simp only [react]
+    split
+    · rename_i c hp
+      cases hc : s.conn with
+      | none => exact onOther_acc h
+      | some k =>
+        simp only []
+        split
+        · rename_i hk
+          exact mainIter_acc _ h (fun _ => (hinv.main c k hp hc hk).1)
+        · rename_i hk
+          exact stale c k hp hc hk
+    · exact Acc.pure h
+  | teardown code => exact Acc.pure (h.frame rfl rfl rfl rfl)
+  | reestablish => exact Acc.pure (h.frame rfl rfl rfl rfl)
+  | stop =>
+    simp only [react]
+    refine Acc.seq (P := fun s' g' => Rel true s' g') ?_ (fun g1 p1 => Acc.mono (stopP_acc p1) (fun s' g' p => p.1))
+    split
+    · exact Acc.mono (closeP_acc h) (fun s' g' p => p.1)
+    · exact Acc.pure h
+  | queueRefresh => exact Acc.pure (h.frame rfl rfl rfl rfl)
+  | announce => exact Acc.pure (h.frame rfl rfl rfl rfl)
+
+theorem step_acc {strict : Bool} {s : State} {g : G} (e : Event) (h : Rel true s g) (hinv : Inv s)
+    (hns : strict = true → ¬StaleAdopted s) :
+    Acc strict g (step s e) (fun s' g' => Rel true s' g') := by
+  unfold step
+  refine Acc.seq (react_acc e h hinv hns) ?_
+  intro g1 r1
+  exact advance_acc _ _ g1 r1 (react_inv s e hinv)
+
+/-- no state along the run is in the stale main loop with an adopted connection. -/
+def noStale : State → List Event → Bool
+  | s, [] => !staleAdopted s
+  | s, e :: es => !staleAdopted s && noStale (step s e).1 es
+
+def NoStale (s : State) (evs : List Event) : Prop := noStale s evs = true
+
+theorem NoStale.head {s : State} {e : Event} {es : List Event} (h : NoStale s (e :: es)) : ¬StaleAdopted s := by
+  simp only [NoStale, noStale, Bool.and_eq_true, Bool.not_eq_true'] at h
+  simp [StaleAdopted, h.1]
+
+theorem NoStale.tail {s : State} {e : Event} {es : List Event} (h : NoStale s (e :: es)) : NoStale (step s e).1 es := by
+  simp only [NoStale, noStale, Bool.and_eq_true] at h
+  exact h.2
+
+theorem run_acc {strict : Bool} : ∀ (evs : List Event) (s : State) (g : G), Rel true s g → Inv s →
+    (strict = true → NoStale s evs) → Acc strict g (run s evs) (fun s' g' => Rel true s' g')
+  | [], s, g, h, _, _ => Acc.pure h
+  | e :: es, s, g, h, hinv, hns => by
+    unfold run
+    refine Acc.seq (step_acc e h hinv (fun hs => (hns hs).head)) ?_
+    intro g1 r1
+    exact run_acc es _ g1 r1 (step_inv s e hinv) (fun hs => (hns hs).tail)
+
+def g0 : G := { fsm := .idle, up := false, dead := [] }
+
+theorem rel_init (cfg : Cfg) (rib : Bool) : Rel true (init cfg rib) g0 :=
+  ⟨rfl, rfl, by simp [g0], by simp [init], by simp [init]⟩
+
 end Exa.Session
